@@ -94,7 +94,8 @@ def run(tier, seed):
                 else:
                     last_next = last
                 key = (action, tuple(args), stt['agrid'].get(args[0]) if action == 'AssetSetupNoGrid' else None,
-                       stt['pgrid'] if action == 'PortfolioSetupNoGrid' else None, last[1:] if (action == 'Optimize' and last) else None, dict_form)
+                       stt['pgrid'] if action == 'PortfolioSetupNoGrid' else None, last[1:] if (action == 'Optimize' and last) else None,
+                       all(g == stt.get('pgrid') for g in stt['agrid'].values()) if action == 'Optimize' else None, dict_form)
                 try:
                     if key not in cache:
                         cache[key] = HY.fresh(action, args, stt, last, dict_form)
